@@ -45,9 +45,53 @@ def off_local(zone, naive_ns):
     return int(o0.total_seconds()) * NS
 
 
+def exists_local(zone, naive_ns):
+    """does the naive wall-clock time occur at all in `zone` (False inside a spring-forward gap)?"""
+    z = ZoneInfo(zone)
+    d = EPOCH + dt.timedelta(microseconds=naive_ns // 1000)
+    for fold in (0, 1):
+        o = d.replace(tzinfo=z, fold=fold).utcoffset()
+        u = (d - o).replace(tzinfo=dt.timezone.utc)
+        if u.astimezone(z).replace(tzinfo=None) == d:
+            return True
+    return False
+
+
 def off_instant(zone, utc_ns):
     d = (EPOCH + dt.timedelta(microseconds=utc_ns // 1000)).replace(tzinfo=dt.timezone.utc)
     return int(d.astimezone(ZoneInfo(zone)).utcoffset().total_seconds()) * NS
+
+
+_TRANS = {}
+
+
+def transitions(zone, year):
+    """UTC instants (whole seconds) in `year` at which the UTC offset of `zone` changes"""
+    if (zone, year) not in _TRANS:
+        z = ZoneInfo(zone)
+        out = []
+        t = dt.datetime(year, 1, 1, tzinfo=dt.timezone.utc)
+        end = dt.datetime(year + 1, 1, 1, tzinfo=dt.timezone.utc)
+        prev = t.astimezone(z).utcoffset()
+        while t < end:
+            n = t + dt.timedelta(hours=6)
+            o = n.astimezone(z).utcoffset()
+            if o != prev:
+                lo, hi = t, n
+                while (hi - lo).total_seconds() > 1:
+                    mid = lo + (hi - lo) / 2
+                    mid = mid.replace(microsecond=0)
+                    if mid <= lo:
+                        break
+                    if mid.astimezone(z).utcoffset() == prev:
+                        lo = mid
+                    else:
+                        hi = mid
+                out.append(int((hi.replace(tzinfo=None) - EPOCH).total_seconds()))
+                prev = o
+            t = n
+        _TRANS[(zone, year)] = out
+    return _TRANS[(zone, year)]
 
 
 def direct_case(ctx, rng):
@@ -61,6 +105,15 @@ def direct_case(ctx, rng):
     F = rng.choice([float(rng.randint(1, 600)), rng.randint(1, 600) + 0.5, rng.uniform(1, 600)])
     B = rng.choice([float(rng.randint(1, 600)), rng.uniform(1, 600)])
     zin, zout = rng.choice(ZONES), rng.choice(ZONES)
+    if rng.random() < 0.2:
+        # a DST switch of the OUTPUT zone falls inside the measurement interval (input stamps in UTC)
+        zin, zout = "UTC", rng.choice(["Europe/Amsterdam", "America/New_York", "Pacific/Auckland", "Australia/Lord_Howe"])
+        tr = transitions(zout, year)
+        if tr:
+            T = rng.choice(tr)
+            lo = -int(B) + 1 if double else 1
+            e = (T + rng.randint(min(lo, int(F) - 1), max(lo, int(F) - 1))) * NS
+            ctx.count("direct: output-zone DST switch inside the measurement")
     case = dict(op="direct", e=e, F=F, B=B, double=double, tz_in=zin, tz_out=zout)
     m = ctx.driver().call("time.coords", double=double, e=e, F=rj(F), B=rj(B))
     names = ["timestart", "time", "timeend"] + (["timeFWstart", "timeFWend", "timeFW", "timeBWstart", "timeBWend", "timeBW"] if double else [])
@@ -84,25 +137,32 @@ def direct_case(ctx, rng):
     # the property, on the real output, in instants (UTC).  A reported wall-clock time that is ambiguous in the OUTPUT zone cannot
     # be turned back into an instant: those cases are compared with the model only.
     inst = {}
+    bad = None
     for k in names:
         oo = off_local(zout, g[k])
         if oo is None:
-            ctx.skip("reported local time ambiguous in the output zone (relations not judged)")
-            ctx.case(sig=["direct", zin, zout, double, year], nontrivial=zin != zout)
-            return
+            if not exists_local(zout, g[k]):
+                # an instant always has a wall-clock time in the output zone; a wall-clock time that does not exist there was not
+                # obtained by converting an instant
+                bad = bad or f"`{k}` is a wall-clock time that does not exist in timezone_netcdf={zout}"
+            else:
+                ctx.count("reported local time ambiguous in the output zone (its relations are not judged)")
+            continue
         inst[k] = g[k] - oo
     e_oi = off_local(zin, e)
     e_inst = e - e_oi if e_oi is not None else None
     f, b = int(F), int(B)
-    bad = None
-    if not (inst["timestart"] <= inst["time"] <= inst["timeend"]):
+    have = lambda *ks: all(k in inst for k in ks)  # noqa: E731
+    if bad is None and have("timestart", "time", "timeend") and not (inst["timestart"] <= inst["time"] <= inst["timeend"]):
         bad = "timestart <= time <= timeend violated"
-    elif inst["timeend"] - inst["timestart"] != (f + (b if double else 0)) * NS:
+    if bad is None and have("timestart", "timeend") and inst["timeend"] - inst["timestart"] != (f + (b if double else 0)) * NS:
         bad = f"timeend - timestart = {(inst['timeend'] - inst['timestart']) / NS} s, acquisition time is {f + (b if double else 0)} s"
-    elif e_inst is not None and double and inst["time"] != e_inst:
+    if bad is None and e_inst is not None and double and have("time") and inst["time"] != e_inst:
         bad = "double-ended: time is not the end of the forward measurement (the stored time stamp)"
-    elif e_inst is not None and not double and not (inst["timeend"] == e_inst and abs(2 * inst["time"] - inst["timestart"] - inst["timeend"]) <= NS):
-        bad = "single-ended: timeend is not the stored time stamp or time is not the midpoint to within 1 s"
+    if bad is None and e_inst is not None and not double and have("timeend") and inst["timeend"] != e_inst:
+        bad = "single-ended: timeend is not the stored time stamp"
+    if bad is None and not double and have("timestart", "time", "timeend") and abs(2 * inst["time"] - inst["timestart"] - inst["timeend"]) > NS:
+        bad = "single-ended: time is not the midpoint to within 1 s"
     if bad:
         ctx.fail(bad, case)
     ctx.case(sig=["direct", zin, zout, double, year], nontrivial=zin != zout, sample=dict(case, coords_ns=g))
